@@ -52,7 +52,7 @@ from specs import sampler_spec as sp
 ID = 'C16'
 LEVEL = 'exploration'
 P_TARGETS = []
-BUDGET = {'quick': 30.0, 'thorough': 400.0}
+BUDGET = {'quick': 30.0, 'thorough': 390.0}
 CHUNK = 100
 N_RANDOM = {'quick': 7000, 'thorough': 200000}
 BOUNDS = {
